@@ -1208,7 +1208,7 @@ int main(int argc, char **argv)
   guardedCases((long)(E2 + 1) * (E2 + 1), caseSeq2, 60000, 64, dSeq2, "seq2D extents", 20);
   guardedCases(nBig, caseBig, 60000, 200, dBig, "big extents", 20);
   long nf = (long)(FHI - FLO + 1) * (FHI - FLO + 1);
-  guardedCases(nf, caseForEach, 120000, 4, dFor, "for_each regions", 8);
+  guardedCases(nf, caseForEach, (int)vh::tier(40000, 120000), 4, dFor, "for_each regions", 3);  // a loop that does not end costs two watchdog periods
   guardedCases(1, caseForEachExtreme, 60000, 1, dFor, "for_each extreme regions", 1);
   guardedCases(n3, caseArrays, 120000, 32, dArr, "array extents", 40);
   guardedCases(nSparse, caseSparse, 120000, 4, dSparse, "sparse arrays", 8);
